@@ -76,7 +76,7 @@ func genCrud(r *gen.R, sess int) sched.Op {
 }
 
 func genScenario(r *gen.R) sched.Scenario {
-	kinds := []string{"crud", "crud", "session", "session", "wtx", "shared", "shared", "close", "direct", "stream", "endstart", "store", "store", "closequeue", "staleabort", "rmw", "rmw"}
+	kinds := []string{"crud", "crud", "session", "session", "wtx", "shared", "shared", "close", "direct", "stream", "endstart", "store", "store", "closequeue", "staleabort", "rmw", "rmw", "usesession", "usesession"}
 	kind := kinds[r.N(len(kinds))]
 	return genScenarioKind(r, kind)
 }
@@ -118,6 +118,28 @@ func genScenarioKind(r *gen.R, kind string) sched.Scenario {
 			sc.Actors = append(sc.Actors, s)
 		}
 		sc.FileStore = r.P(25)
+	case "usesession":
+		// Client.UseSession whose callback starts a transaction, writes and leaves in one of five ways;
+		// the other actors' plain writes must get the writer slot afterwards (directed in directedFor)
+		mode := []string{"", "err", "cbPanic", "goexit", "nocommit"}[r.N(5)]
+		sc.Kind = "usesession-" + map[string]string{"": "ok", "err": "err", "cbPanic": "panic", "goexit": "goexit", "nocommit": "nocommit"}[mode]
+		a1 := []sched.Op{{Kind: "usess", Fault: mode}}
+		if r.P(40) {
+			a1 = append(a1, genCrud(r, 0))
+		}
+		sc.Actors = append(sc.Actors, a1)
+		for a := 2; a <= n; a++ {
+			var s []sched.Op
+			for k := 1 + r.N(2); k > 0; k-- {
+				s = append(s, sched.Op{Kind: []string{"inc", "ins", "fau", "find", "usess"}[r.N(5)]})
+			}
+			for i := range s {
+				if s[i].Kind == "usess" {
+					s[i].Fault = []string{"", "err", "cbPanic", "goexit", "nocommit"}[r.N(5)]
+				}
+			}
+			sc.Actors = append(sc.Actors, s)
+		}
 	case "rmw":
 		// read-modify-write calls (queue pops with a sort, a competing claim, upserts) queue behind a
 		// holder of the write token (session transaction or a writer parked inside its commit); each of
@@ -211,7 +233,7 @@ func genScenarioKind(r *gen.R, kind string) sched.Scenario {
 				for k := r.N(3); k > 0; k-- {
 					op.Inner = append(op.Inner, genCrud(r, 0))
 				}
-				op.Fault = []string{"", "", "cbPanic", "cbErr"}[r.N(4)]
+				op.Fault = []string{"", "", "cbPanic", "cbErr", "goexit", "cbCommit", "cbAbort", "nested"}[r.N(8)]
 				s = append(s, op)
 				if r.P(40) {
 					s = append(s, genCrud(r, 0))
@@ -553,6 +575,16 @@ func directedFor(r *gen.R, sc sched.Scenario) sched.Chooser {
 		for a := 2; a <= n; a++ {
 			steps = append(steps, sched.Directive{Actor: a, Until: "done"})
 		}
+	case "usesession-ok", "usesession-err", "usesession-panic", "usesession-goexit", "usesession-nocommit":
+		if r.P(75) {
+			// actor 1 is inside the callback and holds the write transaction; the others queue; then the
+			// callback leaves
+			steps = []sched.Directive{{Actor: 1, Until: "sstart.begun"}}
+			for a := 2; a <= n; a++ {
+				steps = append(steps, sched.Directive{Actor: a, Until: "done"})
+			}
+			steps = append(steps, sched.Directive{Actor: 1, Until: "done"})
+		}
 	case "rmw":
 		if r.P(80) {
 			// the holder takes the token (session: after StartTransaction; plain writer: parked at its
@@ -720,6 +752,19 @@ func corpusScenarios() ([]sched.Scenario, map[int][]sched.Directive) {
 			[]sched.Op{o("sstart", 1), {Kind: "upd0", Sess: 1, Ctx: ctx}, o("send", 1), o("sabort", 1)}, []sched.Op{o("sstart", 1)}, []sched.Op{o("find", 0)}))
 		directed[len(out)-1] = []sched.Directive{{Actor: 2, Until: "begin.acquired"}, {Actor: 1, Until: "op.start"}, {Actor: 1, Until: "done"}, {Actor: 2, Until: "done"}, {Actor: 1, Until: "done"}}
 	}
+	// Client.UseSession: the callback starts a transaction, writes, and leaves by commit / error / panic /
+	// runtime.Goexit / plain return without commit — the session must be ended on every way out, so the
+	// two queued writers get the slot and the abandoned document stays invisible
+	for _, mode := range []string{"", "err", "cbPanic", "goexit", "nocommit"} {
+		kind := "usesession-" + map[string]string{"": "ok", "err": "err", "cbPanic": "panic", "goexit": "goexit", "nocommit": "nocommit"}[mode]
+		out = append(out, S(kind, 0, false, []sched.Op{{Kind: "usess", Fault: mode}}, []sched.Op{o("inc", 0)}, []sched.Op{o("ins", 0), o("find", 0)}))
+		directed[len(out)-1] = []sched.Directive{{Actor: 1, Until: "sstart.begun"}, {Actor: 2, Until: "done"}, {Actor: 3, Until: "done"}, {Actor: 1, Until: "done"}}
+	}
+	// Session.WithTransaction: callback that calls Goexit / commits or aborts by itself / nests WithTransaction
+	for _, f := range []string{"goexit", "cbCommit", "cbAbort", "nested"} {
+		out = append(out, S("wtx", 1, false, []sched.Op{{Kind: "wtx", Sess: 1, Fault: f, Inner: []sched.Op{o("ins", 0)}}}, []sched.Op{o("inc", 0)}, []sched.Op{o("find", 0)}))
+		directed[len(out)-1] = []sched.Directive{{Actor: 1, Until: "sstart.begun"}, {Actor: 2, Until: "done"}, {Actor: 3, Until: "done"}, {Actor: 1, Until: "done"}}
+	}
 	// read-modify-write must be ONE transaction: pops (sorted FindOneAndDelete / FindOneAndUpdate) and a
 	// claim of the best job queue behind a session transaction that holds the token
 	for v := 0; v < 4; v++ {
@@ -828,6 +873,8 @@ func tinyScenarios() []sched.Scenario {
 		{Kind: "close", Actors: [][]sched.Op{{o("inc", 0)}, {{Kind: "close"}}}},
 		{Kind: "close", Sessions: 1, Actors: [][]sched.Op{{o("sstart", 1), o("scommit", 1)}, {{Kind: "close"}}}},
 		{Kind: "close", Actors: [][]sched.Op{{o("inc", 0), o("find", 0)}, {{Kind: "close"}, o("inc", 0)}}},
+		{Kind: "usesession-goexit", Actors: [][]sched.Op{{{Kind: "usess", Fault: "goexit"}}, {o("inc", 0)}}},
+		{Kind: "usesession-panic", Actors: [][]sched.Op{{{Kind: "usess", Fault: "cbPanic"}}, {o("ins", 0)}}},
 		{Kind: "rmw", Queue: 2, Actors: [][]sched.Op{{o("pop", 0)}, {o("pop", 0)}, {o("claim", 0)}}},
 		{Kind: "rmw", Queue: 1, Actors: [][]sched.Op{{o("popu", 0)}, {o("pop", 0)}}},
 		{Kind: "stream", Actors: [][]sched.Op{{{Kind: "watch", Stream: 1}, {Kind: "next", Stream: 1}}, {o("ins", 0)}}},
